@@ -173,6 +173,15 @@ class ClientAuthenticator:
                     b'ERROR ' + str(e).encode('unicode-escape'))
 
     def _auth_ERROR(self, line):
+        if self.negotiatingUnixFD:
+            # The server does not support descriptor passing. The mechanism
+            # has already been accepted so carry on without it.
+            self.negotiatingUnixFD = False
+            self.unixFDSupport = False
+            self.sendAuthMessage(b'BEGIN')
+            self.authenticated = True
+            return
+
         log.msg(
             'Authentication mechanism failed: '
             + line.decode("ascii", "replace")
